@@ -10,7 +10,7 @@ import vtlib
 from checks import synccheck
 
 META = dict(
-    text='TLC exhausts the semaphore protocol at critical-section granularity (Semaphore.tla: 3 waiters with demands 2/1/1, 2 signallers adding 1 and 2, initial count 0 and 1, in-order and out-of-order resume, two waiters that may time out or be interrupted at any point; every nested spinlock acquisition is a blocking step) for token conservation, no-lost-wake-up at rest, absence of self-deadlock / lock-order deadlock, queue consistency, and signaller-finished-before-destroy. Recorded executions of the real semaphore (random wait / wait_interruptible with timeouts 0/short/inf, signal from photon threads and plain OS threads, interrupts, 1-3 vCPUs, both resume modes, plus a destroy-immediately-after-wait scenario on poisoned storage) are validated by TLC against the abstract counting semaphore: wait()==0 iff tokens were taken atomically, failed waits take nothing and only fail by timeout/interruption, count() matches the ledger whenever the execution is at rest, and no thread is asleep while the count covers every blocked demand (any blocked demand in out-of-order mode).',
+    text='TLC exhausts the semaphore protocol at critical-section granularity (Semaphore.tla: 3 waiters with demands 2/1/1, 2 signallers adding 1 and 2, initial count 0 and 1, in-order and out-of-order resume, two waiters that may time out or be interrupted at any point; every nested spinlock acquisition is a blocking step) for token conservation, no-lost-wake-up at rest, absence of self-deadlock / lock-order deadlock, queue consistency, and signaller-finished-before-destroy. Recorded executions of the real semaphore (random wait / wait_interruptible with timeouts 0/short/inf, signal from photon threads and plain OS threads, interrupts, 1-3 vCPUs, both resume modes, plus a destroy-immediately-after-wait scenario on poisoned storage) are validated by TLC against the abstract counting semaphore: wait()==0 iff tokens were taken atomically, failed waits take nothing and only fail by timeout/interruption, count() matches the ledger whenever the execution is at rest, and no thread is asleep while the count covers every blocked demand (any blocked demand in out-of-order mode). Scripted one-vCPU sequences (conductor: explicit arrival orders, time advances and interrupts) are judged the same way. Tier B: the hook events emitted under the internal spinlock (count changes, resumes, enqueues, timeout / interrupt dequeues) are validated against the protocol, and at the end of every resume pass of the real execution (signal() returned, a wait failed) the head of the queue (any waiter, out-of-order mode) must not be covered by the unpromised tokens.',
     note='TLC results hold for the stated populations. Conformance samples schedules. "Asleep" is judged by the library itself (thread state SLEEPING at two inspections 10 ms apart with no progress). The use-after-destroy clause is observed through poisoned storage and crashes only (no sanitizer in the quick tier).',
     technique='TLA+ critical-section model checked exhaustively by TLC; TLC trace validation (linearizability against abstract counting semaphore) of executions recorded from the real semaphore',
     design='3/C02')
@@ -21,12 +21,41 @@ MC = [('MC_Semaphore', 'MC_Semaphore_inorder.cfg', 900), ('MC_Semaphore', 'MC_Se
       ('MC_Semaphore', 'MC_Semaphore_ooo.cfg', 900), ('MC_Semaphore', 'MC_Semaphore_destroy.cfg', 300)]
 
 
+DROP_B = ('hPreSwitch', 'hDrain', 'hHeap', 'hSteal', 'Script')
+
+
+def run_tier_b(ctx):
+    """Tier B: hook events emitted under the semaphore's internal spinlock against the critical-section protocol, with the
+    no-lost-wake-up predicate evaluated at the end of every resume pass of the real execution (Trace_SemB.tla)."""
+    from checks import tracecheck
+    h = ctx.build_harness('h_sync')
+    n_exec, n_hook = 0, 0
+    q = ctx.tier == 'quick'
+    for prim, execs, vc in [('sem', 60 if q else 1500, 3), ('semooo', 40 if q else 1000, 3), ('csem', 600 if q else 20000, 1)]:
+        trace = f'{ctx.out}/{prim}_B.ndjson'
+        rc, o, e = ctx.run_harness(h, ['--prim', prim, '--execs', execs, '--seed', ctx.seed + 200, '--vcpus', vc, '--threads', 4,
+                                        '--ops', 5, '--hooks', '--out', trace], timeout=1500, ok_rcs=(0, 4))
+        if rc == 124:
+            raise vtlib.InfraError(f'h_sync --prim {prim} --hooks timed out')
+        rows = [r for r in vtlib.read_ndjson(trace) if r['e'] not in DROP_B]
+        hooks = sum(1 for r in rows if r['e'].startswith('hSem'))
+        if not hooks:
+            raise vtlib.InfraError('no semaphore hook events recorded: are the guarded hooks compiled in?')
+        n_hook += hooks
+        acc, rejs, n = tracecheck.validate(ctx, 'Trace_SemB', 'Trace_SemB.cfg', rows, tagbase=f'semB_{prim}', chunk_events=6000)
+        n_exec += n
+        tracecheck.report(ctx, rejs, f'{prim} (protocol level)', name=f'semB_{prim}')
+    ctx.extra['tier_b_executions'] = n_exec
+    ctx.extra['tier_b_hook_events'] = n_hook
+
+
 def run(ctx):
     ctx.samples.append({'constants': open(f'{vtlib.SPEC}/MC_Semaphore_inorder.cfg').read()})
     if not os.environ.get('VERIF_SKIP_MC') and not synccheck.mc_all(ctx, MC):
         return ctx.finish()
     ctx.build_lib()
     synccheck.run_modes(ctx, MODES_Q if ctx.tier == 'quick' else MODES_T, 'Trace_SemA', 'Trace_SemA.cfg')
+    run_tier_b(ctx)
     ctx.assumptions = ['sequential consistency in the specification', 'kernel / OS scheduling picks the interleavings that are sampled']
     return ctx.finish()
 
